@@ -70,6 +70,21 @@ add("to_timestamp(0)", dt(1970, 1, 1), "to_timestamp")
 add("to_timestamp(-1)", dt(1969, 12, 31, 23, 59, 59), "to_timestamp")
 add("to_timestamp('2020-01-02 03:04:05')", dt(2020, 1, 2, 3, 4, 5), "to_timestamp")
 add("to_timestamp_ntz('2020-01-02 03:04:05')", dt(2020, 1, 2, 3, 4, 5), "to_timestamp")
+# a string holding an integer is an epoch count whose unit depends on its magnitude (documented thresholds 31536000000 / ...000 / ...000000):
+# below the first threshold it is SECONDS, however many digits it has
+add("to_timestamp('0')", dt(1970, 1, 1), "to_timestamp")
+add("to_timestamp('-1')", dt(1969, 12, 31, 23, 59, 59), "to_timestamp")
+add("to_timestamp('1700000000')", dt(2023, 11, 14, 22, 13, 20), "to_timestamp")
+add("to_timestamp('9999999999')", dt(2286, 11, 20, 17, 46, 39), "to_timestamp")
+add("to_timestamp('10000000000')", dt(2286, 11, 20, 17, 46, 40), "to_timestamp")
+add("to_timestamp('20000000000')", dt(2603, 10, 11, 11, 33, 20), "to_timestamp")
+add("to_timestamp('31535999999')", dt(2969, 5, 2, 23, 59, 59), "to_timestamp")
+add("to_timestamp(10000000000)", dt(2286, 11, 20, 17, 46, 40), "to_timestamp")
+add("to_timestamp(31535999999)", dt(2969, 5, 2, 23, 59, 59), "to_timestamp")
+# at and above it: milliseconds / microseconds / nanoseconds - the documented value, or rejected
+add("to_timestamp('31536000000')", dt(1971, 1, 1), "to_timestamp-may-reject")
+add("to_timestamp('1700000000000')", dt(2023, 11, 14, 22, 13, 20), "to_timestamp-may-reject")
+add("to_timestamp('1700000000000000')", dt(2023, 11, 14, 22, 13, 20), "to_timestamp-may-reject")
 # TO_DECIMAL family
 add("to_decimal('1.5')", D("2"), "to_decimal")
 add("to_decimal('2.5')", D("3"), "to_decimal")
